@@ -3,7 +3,7 @@
    recursion with per-activation locals, every interleaving of calls to sibling closures of two instances of a
    counter factory, every callee kind x argument count x arity, positional binding with distinct arguments,
    and functions stored in variables, arrays, objects and returned from functions. *)
-EXTENDS BornoSem, SequencesExt
+EXTENDS BornoSem, SequencesExt, SanitySets
 CONSTANTS CtxDepth, HistLen, EmitOn
 
 Num(i) == Lit(N(i))
@@ -138,5 +138,7 @@ EmitInv == (EmitOn /\ Final) =>
          toks |-> Compact(Yield(MinParen(P))), tree |-> P, stdin |-> stdin, repl |-> repl,
          status |-> status, why |-> why, out |-> out, diags |-> diags, natlog |-> natlog, steps |-> steps])
 (* ActivationFresh: a call never reuses a scope; ReturnUnwindsToCall: after a call returns the caller's scope is current *)
+(* every program of this family terminates within the fuel: a swallowed return shows up as a loop that runs on *)
+LoopsEnd == status # "fuel"
 CallFramesConsistent == \A i \in 1..Len(kont) : kont[i].f = "call" => kont[i].env < cur \/ kont[i].env \in 1..Len(envs)
 =============================================================================
